@@ -1,8 +1,8 @@
 package types
 
 import (
+	"fmt"
 	"math/big"
-	"strconv"
 )
 
 const (
@@ -16,6 +16,8 @@ const (
 	NundPow = 1e-9 // multiplier for converting from (nano) nund to und
 )
 
+var nundPerFund = big.NewInt(1000000000)
+
 func ConvertUndDenomination(amount string, from string, to string) (string, error) {
 
 	if from == to {
@@ -24,23 +26,21 @@ func ConvertUndDenomination(amount string, from string, to string) (string, erro
 
 	switch from {
 	case FundDenom: // from und to nund
-		fromAmt, err := strconv.ParseFloat(amount, 64)
-		if err != nil {
-			return "", err
+		fromAmt, ok := new(big.Rat).SetString(amount)
+		if !ok {
+			return "", fmt.Errorf("invalid amount: %s", amount)
 		}
-		fromAmtBf := new(big.Float).SetFloat64(fromAmt)
-		res := fromAmtBf.Mul(fromAmtBf, big.NewFloat(UndPow))
-		result := new(big.Int)
-		res.Int(result)
+		res := fromAmt.Mul(fromAmt, new(big.Rat).SetInt(nundPerFund))
+		// truncate anything below 1 nund
+		result := new(big.Int).Quo(res.Num(), res.Denom())
 		return result.String() + to, nil
 	case NundDenom: // from nund to fund
-		fromAmt, err := strconv.ParseFloat(amount, 64)
-		if err != nil {
-			return "", err
+		fromAmt, ok := new(big.Rat).SetString(amount)
+		if !ok {
+			return "", fmt.Errorf("invalid amount: %s", amount)
 		}
-		fromAmtBf := new(big.Float).SetFloat64(fromAmt)
-		res := fromAmtBf.Mul(fromAmtBf, big.NewFloat(NundPow))
-		return res.Text('f', 9) + to, nil
+		res := fromAmt.Quo(fromAmt, new(big.Rat).SetInt(nundPerFund))
+		return res.FloatString(9) + to, nil
 	}
 
 	return "", nil
